@@ -21,4 +21,5 @@ func init() {
 var Registry = map[string]func(tier string, args []string) int{
 	"C10": func(t string, a []string) int { return C10(t) },
 	"C03": func(t string, a []string) int { return C03(t) },
+	"C04": func(t string, a []string) int { return C04(t) },
 }
